@@ -66,8 +66,18 @@ func c18Batch(n, c int, stop bool, act Action) *BatchNodeBuilder {
 
 // c18Node builds the node kind under test (forks on the kind; the action stays symbolic)
 func c18Node(act Action) Node {
-	kinds := 10
+	kinds := 12
 	switch vChoice("kind", kinds) {
+	case 10:
+		vCover("kind-struct-budget<=0")
+		b := vNondet[int]("budget")
+		vAssume(-2 <= b && b <= 0)
+		return &c18Struct{BaseNode: NewBaseNode(WithMaxRetries(b)), act: act}
+	case 11:
+		vCover("kind-func-budget<=0")
+		b := vNondet[int]("budget")
+		vAssume(-2 <= b && b <= 0)
+		return NewNode(WithMaxRetries(b)).WithPostFuncAny(func(ctx context.Context, s *SharedStore, p, e any) (Action, error) { return act, nil })
 	case 8:
 		vCover("kind-batch-no-prep-function")
 		return NewBatchNode().WithPostFunc(func(ctx context.Context, s *SharedStore, items, results []Result) (Action, error) {
